@@ -142,3 +142,84 @@ pub fn lines(data: &[u8]) -> Result<(), String> {
     let _quiet = crate::engine::stdio::Redirect::start(false);
     checks::c18::judge_lines_pub(&lines)
 }
+
+// ------------------------------------------------------------------ seed corpora (./check CORPUS)
+
+/// Write small valid seed inputs for every fuzz target to <verif>/corpus/<target>/ (committed; the
+/// campaigns also run from an empty corpus directory, libFuzzer merges both). Deterministic.
+pub fn gen_corpus() -> i32 {
+    use crate::refmodel::insn::{decode_bytes, Class};
+    use std::collections::BTreeMap;
+    let root = verif_root().join("corpus");
+    let mut x: u32 = 0x1234_5678;
+    let mut rnd = move || {
+        x = x.wrapping_mul(1664525).wrapping_add(1013904223);
+        (x >> 24) as u8
+    };
+    let write = |target: &str, name: &str, bytes: &[u8]| {
+        let d = root.join(target);
+        let _ = std::fs::create_dir_all(&d);
+        std::fs::write(d.join(name), bytes).expect("write corpus file");
+    };
+    // fuzz_step: one example per decoded form (first encoding found in a structured sweep)
+    let mut forms: BTreeMap<String, Vec<u8>> = BTreeMap::new();
+    let b1s: Vec<u8> = (0..16u8).flat_map(|h| [h << 4, (h << 4) | 8, (h << 4) | 2, (h << 4) | 0xa]).collect();
+    let b3s = [0x00u8, 0x12, 0x20, 0x80, 0xa0, 0xf9];
+    // following words: a second prefix level (MOV.L @(d:24)), a 24-bit address/displacement, the store form
+    const TAILS: [[u8; 6]; 3] = [[0x6b, 0x20, 0x00, 0x40, 0x12, 0x34], [0x00, 0x40, 0x12, 0x34, 0x56, 0x78], [0x6b, 0xa0, 0x00, 0x40, 0x12, 0x34]];
+    for b0 in 0..=255u8 {
+        for &b1 in &b1s {
+            // one-word instruction (decodable from the first word alone): the following bytes do not matter
+            let single = !matches!(decode_bytes(&[b0, b1]).class, Class::FetchFault);
+            for b2 in 0..=255u8 {
+                for (&b3, tail) in b3s.iter().flat_map(|b| TAILS.iter().map(move |t| (b, t))) {
+                    let code = [b0, b1, b2, b3, tail[0], tail[1], tail[2], tail[3], tail[4], tail[5]];
+                    let d = decode_bytes(&code);
+                    let key = match &d.class {
+                        Class::Impl(i) => format!("{:?}", i).chars().filter(|c| !c.is_ascii_digit()).collect::<String>(),
+                        Class::Unimpl(n) => format!("unimpl {}", n),
+                        _ => continue,
+                    };
+                    forms.entry(format!("{} len{}", key, d.len)).or_insert_with(|| code.to_vec());
+                    if single {
+                        break;
+                    }
+                }
+                if single {
+                    break;
+                }
+            }
+        }
+    }
+    for (i, (_, code)) in forms.iter().enumerate() {
+        let mut f = code.clone();
+        for _ in 0..40 {
+            f.push(rnd());
+        }
+        write("fuzz_step", &format!("form{:04}", i), &f);
+    }
+    // fuzz_elf: the bytes are the generator's draws; full-length random streams
+    for i in 0..12 {
+        let f: Vec<u8> = (0..3600).map(|_| rnd()).collect();
+        write("fuzz_elf", &format!("draws{:02}", i), &f);
+    }
+    // fuzz_timer: (kind, value) pairs: program the compare registers and the clock, then run
+    for i in 0..24u8 {
+        let mut f = vec![6, rnd().max(1), 0x07, rnd().max(2), 4, (i % 3 + 1) | ((i % 4) << 3) | ((i & 7) << 5)];
+        for _ in 0..120 {
+            let k = rnd();
+            f.push(if k < 200 { k % 4 } else { k });
+            f.push(rnd());
+        }
+        write("fuzz_timer", &format!("ops{:02}", i), &f);
+    }
+    // fuzz_lines: lines from the C18 grammar
+    for i in 0..24 {
+        let d: Vec<u32> = (0..400).map(|_| u32::from_be_bytes([rnd(), rnd(), rnd(), rnd()])).collect();
+        let lines = checks::c18::build_lines(&mut Ent::new(&d));
+        let text: String = lines.iter().take(40).map(|l| format!("{}\n", l)).collect();
+        write("fuzz_lines", &format!("lines{:02}", i), text.as_bytes());
+    }
+    println!("corpus written: {} fuzz_step forms, 12 fuzz_elf, 24 fuzz_timer, 24 fuzz_lines", forms.len());
+    0
+}
